@@ -40,6 +40,8 @@ LEVEL = {
 }
 
 TOOLS = c01.PASS_THROUGH + c01.TRANSFORMING
+# look-behind windows are recognised structurally (the held item is yielded together with the newly
+# pulled one); this table only documents the instance found on today's tree
 WINDOW_LOCALS = {
     ("itertools.pairwise", "prev"): "a pair needs two consecutive items: one item of look-behind, like the stdlib",
 }
@@ -161,14 +163,16 @@ def r05_1(ctx, u, rid: str = "R05.1") -> None:
         for d in defs + results:
             names = [x for x in node_defs(d)]
             for name in names:
-                if (ctx.pkg.canonical(u), name) in WINDOW_LOCALS or (u.short, name) in WINDOW_LOCALS:
-                    continue
                 for p2 in pulls:
                     if d not in results and source_key(ctx, u, p1) != source_key(ctx, u, p2):
                         continue
+                    new_names = {x for q in item_defs(ctx, u, p2) for x in node_defs(q)}
                     for y in yields:
                         if not any(isinstance(x, ast.Name) and x.id == name for x in ast.walk(y.ast)):
                             continue
+                        if d not in results and any(isinstance(x, ast.Name) and x.id in new_names and x.id != name
+                                                    for x in ast.walk(y.ast)):
+                            continue  # a look-behind window: the held item is yielded *together with* the new one (pairwise)
 
                         def redefines(n: Node, name=name) -> bool:
                             return n is not d and name in node_defs(n)
